@@ -171,6 +171,23 @@ func init() {
 	})
 }
 
+func init() {
+	props = append(props, prop{
+		ID: "C08", Title: "output stream next-message lookup under every interleaving", Level: "exploration",
+		LevelText:  "The output stream is compiled against a scheduler-controlled drop-in for package sync; generated programs (a writer thread adding batches in increasing id order and deleting oldest-first or non-existing ids, reader threads calling GetNext(x)/Get with x over 0, present, deleted, gap and ahead-of-the-node positions, cancel+InterruptGetNext steps) run under schedules drawn by rapid (unit random) or enumerated exhaustively by DFS per program (unit dfs). A versioned sorted-map model, advanced at the exact Unlock of each mutation, decides every return value; quiescence and the final interrupt decide blocking.",
+		LevelNote:  "Interleavings are controlled at the granularity of the stream's lock operations; LevelDB internals run freely. A client that is ahead of the node gets the next added batch (the only caller compensates), which the oracle accepts.",
+		Technique:  "property-based testing with a controlled scheduler (rapid-drawn and DFS-enumerated schedules) against a versioned reference model",
+		DesignRef:  "4/C08",
+		Rule:       "case = program (0-4 set-up operations, writer with 1-4 operations, 1-2 readers with 1-4 operations) + schedule; non-trivial = some GetNext/Get spanned at least one Add/Delete critical section between its invocation and its return; distinct = hash of program + schedule; unit dfs enumerates all schedules of 2-thread programs with <=3 operations each (label says how many programs were enumerated completely); unit sequential runs 5-60 operation programs (deletes of oldest/tail/middle/non-existing, >1000-batch bursts that churn the read cache) against a sorted map, non-trivial = a GetNext after a delete",
+		Assumptions: []string{"batches are added in increasing id order by one goroutine (raft's FSM goroutine), deletions while readers are active are oldest-first"},
+		Units: []unit{
+			{Name: "random", Pkg: "internal/outputstream", Harness: "outputstream_vsync", Mode: "vsync", Run: "^TestVerifC08$", Rapid: true, Quick: 6000, Thorough: 300000, QuickTimeoutS: 600, ThoroughTimeoutS: 3000},
+			{Name: "dfs", Pkg: "internal/outputstream", Harness: "outputstream_vsync", Mode: "vsync", Run: "^TestVerifC08DFS$", Rapid: true, Quick: 192, Thorough: 6000, QuickTimeoutS: 600, ThoroughTimeoutS: 3000, Env: []string{"VERIF_C08_MAXSCHED=1500"}},
+			{Name: "sequential", Pkg: "internal/outputstream", Harness: "outputstream_vsync", Mode: "vsync", Run: "^TestVerifC08Seq$", Rapid: true, Quick: 3000, Thorough: 100000, QuickTimeoutS: 600, ThoroughTimeoutS: 3000},
+		},
+	})
+}
+
 // notApplicable lists properties that are not claimed (yet), with the reason.
 var notApplicable = map[string]string{}
 
